@@ -194,8 +194,8 @@ macro_rules! field_impl {
             fn neg(self) -> Self::Output {
                 // Invariant uphold by the construction
                 // 0 <= self < PRIME
-                // therefore it is safe to avoid the modulo operation
-                Self(Self::PRIME - self.0)
+                // the modulo operation is only needed to map -0 to 0 (and not to PRIME)
+                Self((Self::PRIME - self.0) % Self::PRIME)
             }
         }
 
